@@ -352,8 +352,20 @@ def _frac(x):
     if isinstance(x, (int, numpy.integer)):
         return Fraction(int(x))
     if isinstance(x, (float, numpy.floating)):
-        return Fraction(float(x))
+        return snap(Fraction(float(x)))
     raise TypeError("not a real scalar: %r" % (type(x),))
+
+
+def snap(f):
+    """A float literal within one unit in the last place of a rational with denominator
+    <= 10000 stands for that rational (0.1 -> 1/10, 4.0/30.0 -> 2/15): the encoding is the
+    real-arithmetic meaning of the source formula, not of its rounded constants."""
+    if f.denominator <= 10000:
+        return f
+    g = f.limit_denominator(10000)
+    if g != 0 and abs(g - f) <= abs(g) * Fraction(1, 2 ** 51):
+        return g
+    return f
 
 
 def mk(re, im=F0):
@@ -367,7 +379,7 @@ def lift(x):
     if isinstance(x, Sym):
         return x
     if isinstance(x, (complex, numpy.complexfloating)):
-        return mk(Fraction(float(x.real)), Fraction(float(x.imag)))
+        return mk(snap(Fraction(float(x.real))), snap(Fraction(float(x.imag))))
     if isinstance(x, (int, float, Fraction, numpy.integer, numpy.floating,
                       bool, numpy.bool_)):
         return SymR(_frac(x))
